@@ -279,7 +279,7 @@ func deepRead(m refbody.Model, n *specNode) *reading {
 		var sub *reading
 		if ch.justAttrs {
 			jr := b.Body.JustAttributes()
-			sub = &reading{err: jr.Errs > 0, unspec: jr.Unspec && jr.Errs == 0, attrs: jr.Attrs}
+			sub = &reading{err: jr.Errs > 0, unspec: jr.Unspec, attrs: jr.Attrs}
 		} else {
 			sub = deepRead(b.Body, ch.node)
 		}
